@@ -1,7 +1,7 @@
 """Reference semantics: data processing, multiplies, saturating, packed SIMD, bit-field, extend, reversal.
 Table-driven by family (A8 pseudocode)."""
 from vf.ref import bits as B
-from vf.ref.model import sem, RefUnpredictable, RefNotModelled
+from vf.ref.model import sem, RefUnpredictable, RefNotModelled, RefUndefined
 
 M32 = 0xFFFFFFFF
 
@@ -252,7 +252,7 @@ def sdiv(cpu, o, row):
     n, m = B.SInt(cpu.R(o['n']), 32), B.SInt(cpu.R(o['m']), 32)
     if m == 0:
         if cpu.cfg.get('is_armv7r_profile') and (cpu.s['sctlr'] >> 19) & 1:
-            raise RefNotModelled('divide-by-zero trap')
+            raise RefUndefined('execution')          # GenerateIntegerZeroDivide(): the Undefined Instruction exception (ARMv7-R, SCTLR.DZ = 1)
         r = 0
     else:
         q = abs(n) // abs(m)
@@ -265,7 +265,7 @@ def udiv(cpu, o, row):
     n, m = cpu.R(o['n']), cpu.R(o['m'])
     if m == 0:
         if cpu.cfg.get('is_armv7r_profile') and (cpu.s['sctlr'] >> 19) & 1:
-            raise RefNotModelled('divide-by-zero trap')
+            raise RefUndefined('execution')          # GenerateIntegerZeroDivide(): the Undefined Instruction exception (ARMv7-R, SCTLR.DZ = 1)
         r = 0
     else:
         r = n // m
